@@ -117,10 +117,12 @@ structure SetEffSem (item wher dflt_ : Expr) : Prop where
       (.ok (.row [] [.int n.delta.input, .int n.delta.output]), s)
   hitemAgg : item.hasAgg = false
   hitemWin : Expr.winsList [item] = []
+  /-- the output column of the query is named `row` (so `effective_date`, `seq` in ORDER BY are columns of `moves`) -/
+  hnameE : exprOutName item = "row"
 
 theorem setEffective_all : ∃ (item wher dflt_ : Expr),
     Schema.fn_set_effective_volumes.body = setEffBody item wher dflt_ ∧ SetEffSem item wher dflt_ := by
-  refine ⟨_, _, _, rfl, ⟨?_, ?_, ?_, by decide, by decide⟩⟩
+  refine ⟨_, _, _, rfl, ⟨?_, ?_, ?_, by decide, by decide, by decide⟩⟩
   · intro cb te lm ln m n x found rest src s
     have c1 := lookup_moves_colV lm m (mvValsX ln n x) found rest "accounts_address" (.text m.account) rfl src
     have c2 := lookup_moves_colV lm m (mvValsX ln n x) found rest "asset" (.text m.asset) rfl src
@@ -183,19 +185,30 @@ theorem setEffective_exprs (cb : Callbacks) (te : TypeEnv) (lm ln : String) (m n
 /-- `update_effective_volumes`, expression by expression, for ANY target row `m` and ANY NEW row `n`:
     the body is `UPDATE moves SET post_commit_effective_volumes = setE WHERE wher` (no FROM, no
     RETURNING) followed by `RETURN new`; `wher` holds iff `m` has NEW's account, asset and ledger and a
-    STRICTLY LATER effective date; `setE` is `m`'s effective volumes plus NEW's delta. -/
-theorem updateEffective_exprs (cb : Callbacks) (te : TypeEnv) (lm ln : String) (m n : Spec.MoveRow) (found : Bool) (rest : List Scope)
-    (src : Option (String × Nat)) (s : St) :
-    ∃ (setE wher : Expr),
-      Schema.fn_update_effective_volumes.body =
-        [PlStmt.exec (Stmt.update [] "" "moves" "" [SetItem.mk "post_commit_effective_volumes" setE] [] (some wher) []) [],
-         PlStmt.ret (some (Expr.col "" "new"))] ∧
-      (evalExpr cb te (trigEnv lm m ln n found rest src) wher).exec s =
-        (.ok (.bool (decide (m.account = n.account ∧ m.asset = n.asset ∧ lm = ln ∧ n.effectiveDate < m.effectiveDate))), s) ∧
-      (evalExpr cb te (trigEnv lm m ln n found rest src) setE).exec s =
-        (.ok (.row [] [.int (m.pcev.add n.delta).input, .int (m.pcev.add n.delta).output]), s) := by
-  refine ⟨_, _, rfl, ?_, ?_⟩
-  · have c1 := lookup_moves_col lm m ln n found rest "accounts_address" (.text m.account) rfl src
+    STRICTLY LATER effective date; `setE` is `m`'s effective volumes plus NEW's delta (`updateEffective_all` below).
+
+    the body of `update_effective_volumes` -/
+def updEffBody (setE wher : Expr) : List PlStmt :=
+  [PlStmt.exec (Stmt.update [] "" "moves" "" [SetItem.mk "post_commit_effective_volumes" setE] [] (some wher) []) [],
+   PlStmt.ret (some (Expr.col "" "new"))]
+
+/-- what `wher` and `setE` of `update_effective_volumes` mean, on ANY target row and ANY NEW row -/
+structure UpdEffSem (setE wher : Expr) : Prop where
+  hwher : ∀ (cb : Callbacks) (te : TypeEnv) (lm ln : String) (m n : Spec.MoveRow) (found : Bool) (rest : List Scope)
+    (src : Option (String × Nat)) (s : St),
+    (evalExpr cb te (trigEnv lm m ln n found rest src) wher).exec s =
+      (.ok (.bool (decide (m.account = n.account ∧ m.asset = n.asset ∧ lm = ln ∧ n.effectiveDate < m.effectiveDate))), s)
+  hset : ∀ (cb : Callbacks) (te : TypeEnv) (lm ln : String) (m n : Spec.MoveRow) (found : Bool) (rest : List Scope)
+    (src : Option (String × Nat)) (s : St),
+    (evalExpr cb te (trigEnv lm m ln n found rest src) setE).exec s =
+      (.ok (.row [] [.int (m.pcev.add n.delta).input, .int (m.pcev.add n.delta).output]), s)
+  notDflt : setE ≠ Expr.dflt
+
+theorem updateEffective_all : ∃ (setE wher : Expr),
+    Schema.fn_update_effective_volumes.body = updEffBody setE wher ∧ UpdEffSem setE wher := by
+  refine ⟨_, _, rfl, ⟨?_, ?_, by intro h; cases h⟩⟩
+  · intro cb te lm ln m n found rest src s
+    have c1 := lookup_moves_col lm m ln n found rest "accounts_address" (.text m.account) rfl src
     have c2 := lookup_moves_col lm m ln n found rest "asset" (.text m.asset) rfl src
     have c3 := lookup_moves_col lm m ln n found rest "ledger" (.text lm) rfl src
     have c4 := lookup_moves_col lm m ln n found rest "effective_date" (.ts m.effectiveDate) rfl src
@@ -206,12 +219,26 @@ theorem updateEffective_exprs (cb : Callbacks) (te : TypeEnv) (lm ln : String) (
     simp only [evalExpr, exec_bind, c1, c2, c3, c4, n1, n2, n3, n4, exec_liftR_ok, evalBinop_eq_text, truth_bool]
     by_cases h1 : m.account = n.account <;> by_cases h2 : m.asset = n.asset <;> by_cases h3 : lm = ln <;>
       by_cases h4 : n.effectiveDate < m.effectiveDate <;>
-      simp [h1, h2, h3, h4, ofTruth, and3, truth_bool, exec_bind, evalBinop_eq_text, evalBinop_gt_ts]
-  · have c6 := lookup_moves_col lm m ln n found rest "post_commit_effective_volumes" (.row ["inputs", "outputs"] [.int m.pcev.input, .int m.pcev.output]) rfl src
+      simp [h1, h2, h3, h4, ofTruth, and3, truth_bool, exec_bind, evalBinop_eq_text, evalBinop_gt_ts, evalBinop_lt_ts]
+  · intro cb te lm ln m n found rest src s
+    have c6 := lookup_moves_col lm m ln n found rest "post_commit_effective_volumes" (.row ["inputs", "outputs"] [.int m.pcev.input, .int m.pcev.output]) rfl src
     have n6 := lookup_new_col lm m ln n found rest "is_source" (.bool n.isSource) rfl src
     have n7 := lookup_new_col lm m ln n found rest "amount" (.int n.amount) rfl src
     simp only [evalExpr, evalExprs, exec_bind, c6, n6, n7, exec_liftR_ok, truth_bool, rowField, lookupIn]
     cases hsrc : n.isSource <;>
       simp [exec_bind, evalBinop_add_int, Spec.MoveRow.delta, Volumes.add, hsrc, truth_bool, lookupIn, rowField, n7]
+
+theorem updateEffective_exprs (cb : Callbacks) (te : TypeEnv) (lm ln : String) (m n : Spec.MoveRow) (found : Bool) (rest : List Scope)
+    (src : Option (String × Nat)) (s : St) :
+    ∃ (setE wher : Expr),
+      Schema.fn_update_effective_volumes.body =
+        [PlStmt.exec (Stmt.update [] "" "moves" "" [SetItem.mk "post_commit_effective_volumes" setE] [] (some wher) []) [],
+         PlStmt.ret (some (Expr.col "" "new"))] ∧
+      (evalExpr cb te (trigEnv lm m ln n found rest src) wher).exec s =
+        (.ok (.bool (decide (m.account = n.account ∧ m.asset = n.asset ∧ lm = ln ∧ n.effectiveDate < m.effectiveDate))), s) ∧
+      (evalExpr cb te (trigEnv lm m ln n found rest src) setE).exec s =
+        (.ok (.row [] [.int (m.pcev.add n.delta).input, .int (m.pcev.add n.delta).output]), s) := by
+  obtain ⟨setE, wher, hb, h⟩ := updateEffective_all
+  exact ⟨setE, wher, hb, h.hwher .., h.hset ..⟩
 
 end Ledger.Sql
